@@ -194,6 +194,13 @@ def handle (args : List String) : String :=
           (match it.findBlock l with
            | some b => traceBlock it a b.instrs
            | none => "?")
+  | "cert" :: ws =>
+    match parseItem ws with
+    | none => "bad-dump"
+    | some it =>
+      match analyse it with
+      | .ok cert => oneLine (toString (repr cert))
+      | .reject _ _ _ _ => "[]"
   | "lean" :: ws =>
     match parseItem ws with
     | none => "bad-dump"
